@@ -71,9 +71,19 @@ pub fn stream(casefile: &str)
 			let filename = "case.pn";
 			let decls = parse(&source, filename);
 			let shape = crate::shape::program(&decls);
+			let pre = expander::expand_one(filename, decls.clone());
+			let vshape = if resolver::check_surface_level_errors(&pre).is_ok()
+			{
+				let post = scoper::analyze(pre.clone());
+				crate::shape::vprogram(&pre, &post)
+			}
+			else
+			{
+				"-".to_string()
+			};
 			let mut compiler = Compiler::default();
 			let outcome = run(decls, filename, &mut compiler);
-			format!("{}\t{}", describe(&outcome), shape)
+			format!("{}\t{}\t{}", describe(&outcome), shape, vshape)
 		});
 		println!("{}\t{}", id, res);
 	}
